@@ -1,17 +1,17 @@
 SPECIFICATION Spec
 CONSTANTS
   Sel <- CodeSel
-  Calls <- OnlyOp
+  Calls <- TwoCalls
   Datagram = FALSE
   ReleaseOnWriteFail = TRUE
-  Cbs <- ThreeCbs
-  Closers <- TwoClosers
+  Cbs <- OneCb
+  Closers <- OneCloser
   Shutters <- NoShutters
   HasReader = TRUE
   ClosesSocket = TRUE
   PopAtomic = TRUE
-  WriteWakes = {"ctx", "sock"}
-  LockWakes = {"ctx"}
+  WriteWakes = {"sock"}
+  LockWakes = {}
   CloseTakesWriteLock = FALSE
   ParkWakes = "conn"
   Noise = {"silent", "unsolicited", "garbage"}
